@@ -319,6 +319,9 @@ func c02GenSeq(r *vu.RNG, alph []byte, nops int) string {
 			case c < 14:
 				m := g.matches(k)
 				lim := r.Intn(m + 2)
+				if lim == 0 && !r.Chance(1, 5) {
+					lim = 1 + r.Intn(m+1) // limit 0 is the dullest case: keep it rare
+				}
 				if r.Chance(1, 20) {
 					lim = 0xffffffff
 				}
@@ -359,6 +362,44 @@ func c02Generate(r *vu.RNG, n int, emit func(string)) {
 		"seq 0 P:1245:01 P:1255:02 K:13 K:1345",
 	} {
 		emit(s)
+	}
+	if vu.Thorough() {
+		// exhaustive: every sequence of at most 3 operations over six keys/prefixes that share nibble
+		// prefixes (one ends in a zero low nibble), all eight operations, limits 0..2
+		keys := []string{"-", "10", "1000", "1001", "1f", "20"}
+		var ops []string
+		for _, k := range keys {
+			ops = append(ops, "P:"+k+":aa", "D:"+k, "G:"+k, "N:"+k, "K:"+k, "C:"+k, "L:"+k+":0", "L:"+k+":1", "L:"+k+":2")
+		}
+		var rec func(prefix string, depth int)
+		rec = func(prefix string, depth int) {
+			if depth > 0 {
+				emit("seq 0" + prefix)
+			}
+			if depth == 3 {
+				return
+			}
+			for _, o := range ops {
+				if depth == 0 && o[0] != 'P' {
+					continue // the first operation on an empty trie is a Put (the others are in the corpus)
+				}
+				rec(prefix+" "+o, depth+1)
+			}
+		}
+		rec("", 0)
+		// ... followed by a Put-only prefix of two keys and then every pair of operations
+		for _, a := range keys {
+			for _, b := range keys {
+				if a >= b {
+					continue
+				}
+				for _, o1 := range ops {
+					for _, o2 := range ops {
+						emit("seq 1 P:" + a + ":01 P:" + b + ":02 " + o1 + " " + o2 + " E")
+					}
+				}
+			}
+		}
 	}
 	for i := 0; i < n; i++ {
 		alph := c02Alphabet
